@@ -45,6 +45,8 @@ def scenario(rng):
         provs=rng.choice([["sm"], ["sm", "model"], ["sm", "model", "l1"], ["sm", "l1", "l2"]]))
     d = scn["classes"][0]
     one_candidate(d)
+    # callables of a quarter of the classes are bound methods of ONE function on different helper objects (a.record, b.record)
+    d["shared_bound"] = rng.random() < 0.25
     # event-actions must still name a declared event of higher rank (events may have been renamed above)
     order = d["evlist"]
     d["cbs"] = [cb for cb in d["cbs"] if not cb.get("evcb") or (
